@@ -1,0 +1,43 @@
+//! Verification hooks. This module only exists when the crate is compiled with
+//! `--cfg rtcm_rs_verif`; it adds no behaviour to the library itself.
+//!
+//! * re-exports of the crate-private bit reader/writer and data field modules,
+//! * an optional per-thread trace of bit-level accesses (needs the `std` feature).
+
+pub use crate::df::{assembler::Assembler, bit_value, dfs, parser::Parser};
+
+/// Kind of a traced access.
+pub const TRACE_PARSE: u8 = 0;
+pub const TRACE_PUT: u8 = 1;
+pub const TRACE_CONSUME: u8 = 2;
+
+#[cfg(feature = "std")]
+mod trace_impl {
+    use std::cell::RefCell;
+    use std::vec::Vec;
+    thread_local! {
+        static TRACE: RefCell<Option<Vec<(u8, u32, u32)>>> = RefCell::new(None);
+    }
+    /// Start recording on this thread (clears any previous trace).
+    pub fn trace_start() {
+        TRACE.with(|t| *t.borrow_mut() = Some(Vec::new()));
+    }
+    /// Stop recording on this thread and return `(kind, bit offset, bit length)` records.
+    pub fn trace_take() -> Vec<(u8, u32, u32)> {
+        TRACE.with(|t| t.borrow_mut().take().unwrap_or_default())
+    }
+    #[inline]
+    pub fn trace_record(kind: u8, offset: usize, len: usize) {
+        TRACE.with(|t| {
+            if let Some(v) = t.borrow_mut().as_mut() {
+                v.push((kind, offset as u32, len as u32));
+            }
+        });
+    }
+}
+#[cfg(feature = "std")]
+pub use trace_impl::{trace_record, trace_start, trace_take};
+
+#[cfg(not(feature = "std"))]
+#[inline]
+pub fn trace_record(_kind: u8, _offset: usize, _len: usize) {}
